@@ -13,7 +13,7 @@ import iolib, gens
 from iolib import RunDir, run_cli, sig, shim_env, read_trace, le32
 from vlib import Oracle, hx, md5
 
-THEOREMS = ["C14_exit0_sound", "C14_rm_order", "C14_rm_order_compress", "C14_multi_exit0", "C14_truncation", "C14_truncation_exit", "C14_pipe_no_exception", "C14_lz4f_st_concrete_sound", "C14_lz4f_st_fresh_sound"]
+THEOREMS = ["C14_exit0_sound", "C14_rm_order", "C14_rm_order_compress", "C14_multi_exit0", "C14_truncation", "C14_truncation_exit", "C14_pipe_no_exception", "C14_lz4f_st_concrete_sound", "C14_lz4f_st_fresh_sound", "C14_old_storeCBlock_hint_refuted"]
 CORRESPONDENCE = ["IoLz4f.lz4f_st_run (concrete LZ4IO_decompressLZ4F loop over Model.FrameD) == lz4 -d -c / -t of the ST build under the stdio tracer: sequence of fread (request, return) pairs, fwrite sizes, "
                   "exit code when the loop exits the process (62/66/67/68), decoded bytes; and == Io.lz4f_st (abstract step over frame_decode) on status, output and bytes left in the source",
                   "Io.decompress (ST model) == lz4 -d/-t of the ST build under the same input, seekable flag and I/O fault: exit status class, output on exit 0, source removal",
@@ -45,6 +45,7 @@ def gen_cases(tier, seed):
     rng = random.Random(seed)
     cases = []
     # fixed corpus: regressions of the repaired defects F2, F3, F8, F9, F11 (must be VIOLATIONs again if a fix is reverted)
+    cases.append({"kind": "stloop_f21", "sseed": 21})        # F21 (repaired, b4823ff): runs first
     for k in ["reg_f2", "reg_f3", "reg_f8", "reg_f9", "reg_f11"]:
         cases.append({"kind": k, "sseed": 77})
     n = {"quick": 1, "search": 3, "thorough": 3}[tier]
@@ -713,11 +714,40 @@ def stloop_one(acc, st, data, tag, frame_len=None, content=None, test=False, rpo
         acc.fail("corr_fail", "unexpected exit code %d of the loop model (%s)" % (code, tag), **det); return
     acc.keys.add(hashlib.sha1(("%s|%d|%s|%s" % (md5(data), len(data), test, rpos)).encode()).hexdigest())
 
+def half_compressible(rng, n):
+    out = bytearray()
+    while len(out) < n:
+        out += rng.randbytes(200) + b"A" * 200
+    return bytes(out[:n])
+
+def case_stloop_f21(acc, st, case, rng):
+    """F21: with block checksums the hint of dstage_storeCBlock counts the checksum twice; on a frame without content
+    checksum whose last compressed block arrives in two pieces the ST loop freads 4 bytes beyond the frame and drops them"""
+    ctx = st["ctx"]
+    for bs in ("-B7", "-B4"):
+        A = half_compressible(rng, 300000); B = half_compressible(rng, 100000)
+        frames = []
+        for raw in (A, B):
+            rc, fr, err = run_cli(ctx["ST"], [bs, "-BX", "--no-frame-crc", "-c", "-q"], stdin_bytes=raw)
+            if rc != 0:
+                raise RuntimeError("lz4 failed to compress: " + err[-200:])
+            frames.append(fr)
+        acc.stats["stloop_f21"] += 1
+        rd = st["rd"]; src = rd.write("two.lz4", frames[0] + frames[1]); so = rd.f("two.out")
+        rc, _, err = run_cli(ctx["ST"], ["-d", "-c", "-q"], stdin_path=src, stdout_path=so, cwd=rd.path)
+        got = open(so, "rb").read() if os.path.exists(so) else b""
+        if rc != 0 or got != A + B:
+            acc.fail("prop_fail", "F21: single-thread lz4 -d of two concatenated frames (%s -BX --no-frame-crc) exits %d with %d of %d bytes: "
+                     "the loop read beyond the end of the first frame (LZ4F hint too large) and dropped the bytes" % (bs, rc, len(got), len(A + B)),
+                     stderr=err[-200:], frame1=len(frames[0]), frame2=len(frames[1]))
+        stloop_one(acc, st, frames[0] + frames[1], "F21 two frames %s -BX --no-frame-crc" % bs, frame_len=len(frames[0]), content=A)
+
 def case_stloop(acc, st, case, rng):
     ctx = st["ctx"]
     if case.get("big"):
         raw = gens.data(rng, rng.choice(["runs", "random", "period", "zerorich", "barely"]), rng.choice([70000, 140000]))
-        cargs = rng.choice([["-1"], ["-9"], ["-BD", "-B4"], ["-BX"], ["--content-size"], ["--no-frame-crc"], ["-B5", "-BD"], ["-B7"]])
+        cargs = rng.choice([["-1"], ["-9"], ["-BD", "-B4"], ["-BX"], ["--content-size"], ["--no-frame-crc"], ["-B5", "-BD"], ["-B7"],
+                            ["-BX", "--no-frame-crc", "-B7"], ["-BX", "--no-frame-crc", "-B5"], ["-BX", "--no-frame-crc", "-B4"], ["-BX", "-B6"]])
         rc, fr, err = run_cli(ctx["ST"], cargs + ["-c", "-q"], stdin_bytes=raw)
         if rc != 0:
             raise RuntimeError("lz4 failed to compress: " + err[-200:])
@@ -727,6 +757,16 @@ def case_stloop(acc, st, case, rng):
     n = len(fr)
     big = bool(case.get("big"))
     acc.stats["stloop_frames"] += 1
+    if n <= 160:
+        # bounded search on the decoder model: no hint may exceed what is left of a valid frame, whatever two cuts and capacity
+        # (this is what F21 violated; the unproved premise of "the ST loop reads exactly the frame")
+        hs = st["iolz4f"].ask("hintscan", hx(fr))
+        acc.evals += 1
+        acc.stats["hintscan_frames"] += 1
+        if hs.startswith("ok"):
+            acc.stats["hintscan_calls"] += int(hs.split("=")[1])
+        else:
+            acc.fail("prop_fail", "LZ4F_decompress (model) asks for more than is left of a valid frame: %s (%s)" % (hs, d), frame=fr.hex())
     test = rng.random() < 0.3
     stloop_one(acc, st, fr, "whole frame " + d, frame_len=n, content=content, test=test)
     # something follows the frame: another frame, garbage, a skippable frame, a lone magic number
@@ -761,9 +801,10 @@ def run_case(st, case):
         elif k == "rm_multi": case_rm_multi(acc, st, case, rng)
         elif k == "fault": case_fault(acc, st, case, rng)
         elif k == "stloop": case_stloop(acc, st, case, rng)
+        elif k == "stloop_f21": case_stloop_f21(acc, st, case, rng)
     finally:
         st["rd"].clean()
     return acc.out()
 
 def classify(r):
-    return None        # C14 has no known, unrepaired finding (F2, F3, F8, F9, F11 are fixed in /repo; F4 belongs to C15)
+    return None        # C14 has no known, unrepaired finding (F2, F3, F8, F9, F11, F21 are fixed in /repo; F4 belongs to C15)
